@@ -445,6 +445,16 @@ class UserSecurityModel(
         verify_authentication(message, credentials, security_params)
         message = decrypt_message(message, credentials)
         validate_usm_message(message)
+        if credentials.auth is not None and not message.header.flags.auth:
+            # The only unauthenticated content we may act upon are USM reports
+            # (which surfaced as an error just above). Anything else must
+            # carry the security level of the credentials (see RFC 3412,
+            # section 7.2.10), otherwise anybody can forge a response by
+            # simply clearing the auth-flag.
+            raise AuthenticationError(
+                "Incoming message is not authenticated although the "
+                "credentials require authentication!"
+            )
         return message
 
     async def send_discovery_message(
